@@ -1,4 +1,5 @@
 mod cmd_backend;
+mod cmd_stages;
 mod consts;
 mod pipe;
 mod rec;
@@ -71,6 +72,7 @@ fn main() {
             cmd_backend::cmd_codegen(which, num(2, 1), num(3, 0) as usize, &mut *out, &args[5.min(args.len())..]);
         }
         "pm" => cmd_pm(num(2, 1), num(3, 100) as usize, &mut *out),
+        "stages" => cmd_stages::cmd_stages(num(2, 1), num(3, 0) as usize, args.get(5..).unwrap_or(&[]), &mut *out),
         c => { eprintln!("unknown command {c}"); std::process::exit(2); }
     }
     out.flush().unwrap();
